@@ -256,7 +256,27 @@ pub fn check_program(prog: &Program, surface: Surface, seed: u64, thorough: bool
 
         // (ii) membership through the API
         let mut ws: Vec<&Vec<u32>> = words.iter().collect();
-        let guided = guided_words(&da, ctx.atoms(), &mut rng, if thorough { 12 } else { 6 });
+        let mut guided = guided_words(&da, ctx.atoms(), &mut rng, if thorough { 12 } else { 6 });
+        if rng.chance(1, 12) {
+            // one long word (200-1500 characters) that stays among live states as long as it can
+            let live: Vec<bool> = (0..da.n()).map(|s| !da.is_empty_from(s as u32)).collect();
+            let len = 200 + rng.usize(1300);
+            let mut st = da.start;
+            let mut wd = Vec::with_capacity(len);
+            for _ in 0..len {
+                let mut k = rng.usize(da.a);
+                for _ in 0..6 {
+                    if live[da.step(st, k) as usize] {
+                        break;
+                    }
+                    k = rng.usize(da.a);
+                }
+                st = da.step(st, k);
+                wd.push(ctx.atoms().lo[k]);
+            }
+            rep.inc("long_words");
+            guided.push(wd);
+        }
         ws.extend(guided.iter());
         let mut n = 0u64;
         let mut selfcheck = 0u64;
